@@ -15,19 +15,22 @@
    The u32 counters and the u64 addition `chunk_start + chunk_size` inside for_copy_partial are plain
    `+` in both versions: an overflow is a Panic (debug build; the assertions are debug-build only too,
    the model describes the debug build, which is the stricter one). *)
-From RJ Require Import Base.Prelude Model.Chunk Model.Bincode.
+From RJ Require Import Base.Prelude Model.Chunk Model.Bincode Gen.Facts_progress.
 From Coq Require Import String.
 Local Open Scope N_scope.
 
 Definition plit (s : string) : str := list_ascii_of_string s.
 
-(* constants of boss_progress.rs; compared with the running code through Gen/Facts_progress.v *)
-Definition min_file_size : N := 1048576.       (* MIN_FILE_SIZE *)
-Definition marker_threshold : N := 1048576.    (* MARKER_THRESHOLD *)
-Definition delete_work : N := 1048576.         (* DELETE_WORK *)
+(* The constants of boss_progress.rs ARE the values the running code reports (Gen/Facts_progress.v is
+   regenerated on every run): a changed constant re-checks every theorem for the new value - the
+   proofs use nothing about them except that they are u64 values ([consts_fit]). *)
+Definition min_file_size : N := impl_min_file_size.         (* MIN_FILE_SIZE *)
+Definition marker_threshold : N := impl_marker_threshold.   (* MARKER_THRESHOLD *)
+Definition delete_work : N := impl_delete_work.             (* DELETE_WORK *)
 
 Definition u64_max : N := 18446744073709551615.
 Definition u32_lim : N := 4294967296.
+Definition consts_fit : bool := (min_file_size <=? u64_max) && (delete_work <=? u64_max) && (marker_threshold <=? u64_max).
 
 Inductive arith := Checked | Saturating.
 
